@@ -101,16 +101,38 @@ def _ss(s):
     return ["other", type(s).__name__]
 
 
-def tuple_arity(a):
-    """number of elements `Environment.get_type(arg)` shows `__unroll_arg` after the type-annotation pass"""
-    if isinstance(a, ast.Subscript) and isinstance(a.value, ast.Name):
-        sl = a.slice
-        if a.value.id == "Tuple" and isinstance(sl, ast.Tuple):
-            return len(sl.elts)
-        if a.value.id in ("Qlist", "Qmatrix") and isinstance(sl, ast.Tuple) and len(sl.elts) >= 2 \
-                and isinstance(sl.elts[1], ast.Constant) and type(sl.elts[1].value) is int:
-            return sl.elts[1].value
-    return None
+def expr_rules(fn):
+    """which expression-level rewrites of ast2ast the *source* of a function asks for (evidence only)"""
+    out = set()
+    names_const = set()
+    for node in ast.walk(fn):
+        if isinstance(node, ast.Call) and isinstance(node.func, ast.Name):
+            f = node.func.id
+            if f in ("len", "sum", "min", "max", "any", "all", "ord", "chr", "int", "float", "abs"):
+                out.add("call:" + f)
+                if node.args:
+                    a = node.args[0]
+                    kind = ("tuple-literal" if isinstance(a, ast.Tuple) else "list-literal" if isinstance(a, ast.List)
+                            else "name" if isinstance(a, ast.Name) else "row" if isinstance(a, ast.Subscript)
+                            else "call" if isinstance(a, ast.Call) else "other")
+                    if f in ("len", "sum", "min", "max", "any", "all"):
+                        out.add(f"unroll:{kind}" if len(node.args) == 1 else f"call:{f}:{min(len(node.args), 4)}-args")
+        if isinstance(node, ast.Subscript):
+            sl, v = node.slice, node.value
+            if isinstance(sl, ast.Name):
+                if isinstance(v, ast.Subscript) and isinstance(v.slice, ast.Name):
+                    out.add("subscript:var-var")
+                elif isinstance(v, ast.Name):
+                    out.add("subscript:var")
+                else:
+                    out.add("subscript:var-on-" + type(v).__name__)
+            elif isinstance(sl, ast.Subscript):
+                out.add("subscript:by-subscript")
+        if isinstance(node, ast.For) and isinstance(node.iter, ast.Subscript):
+            out.add("for-row")
+        if isinstance(node, ast.BinOp) and isinstance(node.op, ast.Pow):
+            out.add("pow")
+    return sorted(out)
 
 
 def parse_fn(src):
@@ -127,8 +149,8 @@ def source_request(src):
     fn = parse_fn(src)
     if fn is None:
         return None
-    args = [[a.arg, tuple_arity(a.annotation)] for a in fn.args.args]
-    return dict(op="c01.ast2ast", args=args, body=[ss(s) for s in fn.body])
+    args = [[a.arg, sx(a.annotation) if a.annotation is not None else ["other", "no-annotation"]] for a in fn.args.args]
+    return dict(op="c01.ast2ast", args=args, body=[ss(s) for s in fn.body], expr_rules=expr_rules(fn))
 
 
 def real_result(ast2ast, src):
